@@ -451,6 +451,15 @@ def run(ctx):
             has_te, has_cl = b"Transfer-Encoding" in names, b"Content-Length" in names
             if (te == "Chunked") != has_te or (te == "Identity") != has_cl:
                 bad_applied.append((stt, dlen, te, "HEAD" if dns else "GET", [n.decode() for n in names if n in (b"Transfer-Encoding", b"Content-Length")]))
+    # ... and a protocol upgrade is framed by neither, whatever the chooser would have said and whether or not a length is declared
+    for stt, dlen, te in itertools.product((101, 200), (None, 0, 7), ("Identity", "Chunked")):
+        for pth in M.run(stt, dlen, False, te, True):
+            S = M.summary(pth)
+            if not S["ok"]:
+                continue
+            names = [n for i, n, v in S["headers"]]
+            if b"Transfer-Encoding" in names or b"Content-Length" in names:
+                bad_applied.append((stt, dlen, te, "upgrade", [n.decode() for n in names if n in (b"Transfer-Encoding", b"Content-Length")]))
     ctx.ob("C05.1", "%s|answer-applied" % raw_print.id, "the coding the chooser answered is the one applied, whether or not the body is sent (HEAD): `Transfer-Encoding: chunked` is written iff it answered chunked, `Content-Length` iff it answered identity",
            not bad_applied, "%s:%d" % (raw_print.file, raw_print.line), None if not bad_applied else str(bad_applied[:3]))
     # what raw_print passes: its own status, the request's headers and version, its declared length and threshold
